@@ -2,7 +2,7 @@
    Ws = the id-sorted walk (path, prior identity) of any model; tps = its tuple-prior paths; rows = the samples
    handed to Sample.from_lists; fx / drop0 select the pinned code (false / true) or the proposed fixes. *)
 From Coq Require Import List String Bool Arith.
-From PAFC09 Require Import Model Lib Proofs1 Proofs2 Proofs3 Proofs4 Proofs5 Proofs6 Proofs7 Witness.
+From PAFC09 Require Import Model Lib Proofs1 Proofs2 Proofs3 Proofs4 Proofs5 Proofs6 Proofs7 Proofs8 Witness.
 Import ListNotations.
 
 (* every well-formed model tree (distinct "."-free attribute names per node, any nesting, sharing, tuples,
@@ -137,6 +137,18 @@ Theorem C09_json_one_row : forall (A : Type) (h : list (string * A)) (k : string
   json_count k (run_json h) = if in_dec string_dec k (map fst h) then 1 else 0.
 Proof. exact @json_one_row. Qed.
 
+(* samples.csv read by position (proposed_fixes/C09-table-columns-by-position.diff; Variant.table_reads_by_position):
+   every well-formed tree, no guard on parameter names -- the reserved-column-name finding disappears *)
+Theorem C09_tree_csv_by_position : forall (V cell : Type) (fmt : V -> cell) (parse : cell -> V) (add : V -> V -> V),
+  (forall v, parse (fmt v) = v) ->
+  forall (t : node) (rows : list (srow V)),
+    wf_root t ->
+    (all_flat (sorted_walk t) -> names_injective (tuple_paths [] t) (sorted_walk t)) ->
+    rows_ok (sorted_walk t) rows ->
+    res_bind (csv_roundtrip_pos fmt parse add true (tuple_paths [] t) (sorted_walk t) (from_lists true (sorted_walk t) rows))
+             (observe (tuple_paths [] t) (sorted_walk t)) = Ok (expected rows).
+Proof. exact @tree_csv_by_position. Qed.
+
 Print Assumptions C09_shapes.
 Print Assumptions C09_roundtrip_db.
 Print Assumptions C09_roundtrip_csv_partial.
@@ -147,3 +159,4 @@ Print Assumptions C09_tree_csv.
 Print Assumptions C09_tree_db.
 Print Assumptions C09_value_per_path_recreated.
 Print Assumptions C09_json_latest_wins.
+Print Assumptions C09_tree_csv_by_position.
